@@ -19,18 +19,20 @@ def elements : List Str := [
   bs "tr", bs "th", bs "td", bs "caption", bs "pre", bs "span", bs "img", bs "details",
   bs "summary", bs "mx-reply"]
 
-/-- Permitted attributes per tag; a tag without a row has none. -/
+/-- Permitted attributes per tag; a tag without a row has none. (Rows and names are written in
+the order of the harness' probe universes, so that the lists extracted from the running
+implementation can be compared with these as plain data: `impl_lists_eq_spec`.) -/
 def attrs : PerElem := [
-  (bs "span", [bs "data-mx-bg-color", bs "data-mx-color", bs "data-mx-spoiler", bs "data-mx-maths"]),
   (bs "a", [bs "target", bs "href"]),
-  (bs "img", [bs "width", bs "height", bs "alt", bs "title", bs "src"]),
   (bs "ol", [bs "start"]),
   (bs "code", [bs "class"]),
-  (bs "div", [bs "data-mx-maths"])]
+  (bs "div", [bs "data-mx-maths"]),
+  (bs "span", [bs "data-mx-maths", bs "data-mx-bg-color", bs "data-mx-color", bs "data-mx-spoiler"]),
+  (bs "img", [bs "width", bs "height", bs "alt", bs "title", bs "src"])]
 
 /-- URL schemes: `href` of `a` must be one of these, `src` of `img` must be `mxc`. -/
 def schemesStrict : SchemeMap := [
-  (bs "a", [(bs "href", [bs "http", bs "https", bs "ftp", bs "mailto", bs "magnet"])]),
+  (bs "a", [(bs "href", [bs "https", bs "http", bs "ftp", bs "mailto", bs "magnet"])]),
   (bs "img", [(bs "src", [bs "mxc"])])]
 
 /-- Compat mode additionally accepts `matrix:` links (matrix-spec issue 1108). -/
